@@ -429,11 +429,13 @@ pub fn parse_multiline_text(
     max_lines: usize,
     max_line_length: usize,
 ) -> Result<Vec<String>, ParseError> {
-    let lines: Vec<String> = input
-        .lines()
-        .map(|s| s.to_string())
-        .filter(|s| !s.is_empty())
-        .collect();
+    let lines: Vec<String> = input.lines().map(|s| s.to_string()).collect();
+
+    if let Some(i) = lines.iter().position(|s| s.is_empty()) {
+        return Err(ParseError::InvalidFormat {
+            message: format!("Line {} is empty", i + 1),
+        });
+    }
 
     if lines.len() > max_lines {
         return Err(ParseError::InvalidFormat {
